@@ -4,5 +4,5 @@ Require Extraction.
 Require Import ExtrOcamlBasic.
 From DV Require Import Lib.Base Activation.Activation Activation.Helper Activation.Cache Spec.ActivationSpecCache.
 Extraction Language OCaml.
-Extraction "model_activation.ml" start step run wf_event pending_sids std_cfg helper shell_parse desktop_load get_string
+Extraction "model_activation.ml" start step run wf_event pending_sids std_cfg2 helper shell_parse desktop_load get_string
   SECTION KEY_NAME KEY_EXEC KEY_USER reload find_entry empty_cache spec_lookup.
